@@ -1,9 +1,12 @@
 package checks
 
 import (
-	"regexp"
+	"bytes"
 	"crypto/x509"
+	"encoding/hex"
+	"encoding/json"
 	"fmt"
+	"regexp"
 	"strings"
 	"time"
 
@@ -290,6 +293,7 @@ func runC06(r *mc.Run) {
 		shapes = append(shapes, c06Build(3, f))
 	}
 	c06Histories(r, shapes[0])
+	c06UnsignedDates(r)
 	for _, s := range shapes {
 		// candidate values per field
 		type tv struct {
@@ -533,4 +537,100 @@ func offFields(f []int) string {
 		s += fieldNames[x] + "+"
 	}
 	return s
+}
+
+// c06UnsignedDates: the dates that decide are those of the SIGNED document. Responses whose signed member lacks
+// nextUpdate (absent / null), or states one that has passed, accompanied by unsigned look-alike members (other
+// capitalisation of the member name, before or after the signed one; an unsigned top-level nextUpdate) that state a
+// date far in the future: never in date. The complete signed document next to the same look-alikes is the control.
+func c06UnsignedDates(r *mc.Run) {
+	w := world.Honest("T")
+	type docSel struct {
+		member, shadowName, url, hdrKey string
+		raw                             []byte
+		hdr                             map[string][]string
+	}
+	docs := []docSel{{"tcbInfo", "TcbInfo", world.URLTcbInfo(hexs(w.Plat.FMSPC)), world.HdrTcbInfo, w.TcbRaw, w.TcbHdr},
+		{"enclaveIdentity", "EnclaveIdentity", world.URLQeIdentity, world.HdrQeIdentity, w.QeRaw, w.QeHdr}}
+	reNU := regexp.MustCompile(`"nextUpdate":"[^"]*"`)
+	type variant struct {
+		name   string
+		signed func(raw []byte) []byte
+		inDate bool // whether the signed document is in date at T0
+	}
+	variants := []variant{
+		{"complete", func(raw []byte) []byte { return raw }, true},
+		{"next-update-absent", func(raw []byte) []byte {
+			return bytes.ReplaceAll(reNU.ReplaceAll(raw, nil), []byte(`,,`), []byte(`,`))
+		}, false},
+		{"next-update-null", func(raw []byte) []byte { return reNU.ReplaceAll(raw, []byte(`"nextUpdate":null`)) }, false},
+		{"next-update-passed", func(raw []byte) []byte {
+			return reNU.ReplaceAll(raw, []byte(`"nextUpdate":"`+world.TimeStr(world.T0.AddDate(0, 0, -1))+`"`))
+		}, false},
+	}
+	shadows := []string{"none", "capitalised-member-after", "capitalised-member-before", "upper-case-member-after", "same-name-member-before", "top-level-nextUpdate", "top-level-NextUpdate-and-issueDate"}
+	type job struct{ d, v, sh int }
+	var jobs []job
+	for d := range docs {
+		for v := range variants {
+			for sh := range shadows {
+				jobs = append(jobs, job{d, v, sh})
+			}
+		}
+	}
+	done := r.Parallel(len(jobs), func(i int) {
+		j := jobs[i]
+		d, v := docs[j.d], variants[j.v]
+		id := fmt.Sprintf("unsigned-dates/%s/signed=%s/shadow=%s", d.member, v.name, shadows[j.sh])
+		if !r.Want(id) {
+			return
+		}
+		signed := v.signed(d.raw)
+		if !json.Valid(signed) {
+			r.HarnessError("C06 %s: edited document is not valid JSON: %s", id, signed)
+			return
+		}
+		far := reNU.ReplaceAll(d.raw, []byte(`"nextUpdate":"2099-01-01T00:00:00Z"`))
+		sig := hex.EncodeToString(w.PKI.TcbKey.SignRaw(signed))
+		m := fmt.Sprintf("%q:%s", d.member, signed)
+		sg := fmt.Sprintf("%q:%q", "signature", sig)
+		var body string
+		switch shadows[j.sh] {
+		case "none":
+			body = "{" + m + "," + sg + "}"
+		case "capitalised-member-after":
+			body = "{" + m + "," + sg + fmt.Sprintf(",%q:%s}", d.shadowName, far)
+		case "capitalised-member-before":
+			body = fmt.Sprintf("{%q:%s,", d.shadowName, far) + m + "," + sg + "}"
+		case "upper-case-member-after":
+			body = "{" + m + "," + sg + fmt.Sprintf(",%q:%s}", strings.ToUpper(d.member), far)
+		case "same-name-member-before":
+			body = fmt.Sprintf("{%q:%s,", d.member, far) + m + "," + sg + "}"
+		case "top-level-nextUpdate":
+			body = "{" + m + "," + sg + `,"nextUpdate":"2099-01-01T00:00:00Z"}`
+		case "top-level-NextUpdate-and-issueDate":
+			body = `{"NextUpdate":"2099-01-01T00:00:00Z","issueDate":"2001-01-01T00:00:00Z",` + m + "," + sg + "}"
+		}
+		if !json.Valid([]byte(body)) {
+			r.HarnessError("C06 %s: response body is not valid JSON", id)
+			return
+		}
+		g := w.Getter.Clone()
+		g.Responses[d.url] = world.Response{Header: d.hdr, Body: []byte(body)}
+		o := w.Options(world.L1)
+		o.Getter = g
+		err := world.SafeVerifyRaw(w.Raw(), o)
+		out := verdict(err)
+		switch {
+		case world.IsPanic(err):
+		case err == nil && !v.inDate:
+			r.Violate("unsigned-dates:accepted:"+v.name+":"+shadows[j.sh], id, "quote accepted although the signed "+d.member+" document is not in date (its nextUpdate is "+v.name[len("next-update-"):]+"); an unsigned member of the response states a later date", map[string]any{"body": body})
+			out = "accept!"
+		case err != nil && v.inDate && shadows[j.sh] == "none":
+			r.Violate("unsigned-dates:control-rejected", id, "the honest response is rejected: "+errStr(err), nil)
+			out = "reject!"
+		}
+		r.Eval(id, j.v != 0 || j.sh != 0, fmt.Sprintf("unsigned-dates:in-date=%v/%s", v.inDate, out))
+	})
+	r.SectionDone(mc.Section{Name: "unsigned-dates", Evaluations: int64(done), Exhaustive: done == len(jobs), Note: "2 documents x 4 signed variants x 7 unsigned look-alikes"})
 }
